@@ -48,7 +48,7 @@ class Run:
         self.trace = []
         self.obligations = []
         self.tags = []
-        self.ghost = {}             # named ghost state (file system, handler lists, ...)
+        self.ghost = {'_qdefs': {}}  # named ghost state (file system, handler lists, definitions of named formulas ...)
         self.inputs = {}            # name -> (kind, term) : the symbols a replay has to decode
         self.assumed = set()        # ids of L0 contracts used on this path
         self.snapshots = []         # (label, pc copy, ghost copy) for crash invariants
@@ -97,6 +97,8 @@ class Run:
         s = z3.Solver()
         s.set('timeout', self.explorer.feas_timeout_ms)
         for f in self.pc:
+            s.add(f)
+        for f in self.ghost.get('_qdefs', {}).values():
             s.add(f)
         for f in extra:
             s.add(f)
@@ -157,9 +159,10 @@ class Run:
     def oblige(self, name, kind, goal, meta=None):
         if isinstance(goal, bool):
             goal = z3.BoolVal(goal)
+        goal = z3.simplify(goal)        # the same normal form as the assumed facts (equal formulas become identical terms)
         m = {'tags': list(self.tags)}
         m.update(meta or {})
-        ob = Obligation(name, kind, self.pc, goal, m)
+        ob = Obligation(name, kind, list(self.pc) + list(self.ghost.get('_qdefs', {}).values()), goal, m)
         ob.meta['inputs'] = dict(self.inputs)
         ob.meta['trace'] = list(self.trace)
         ob.meta['input_values'] = dict(self.ghost.get('_input_values', {}))
